@@ -322,7 +322,7 @@ class Population:
         return w.known_now
 
     def ops(self, w):
-        ops = [['query']]      # reading is an operation too: whatever a query remembers must not show later
+        ops = [['query']] + ([['complete']] if w.model.is_running() else [])
         for k in self.keys:
             if k in w.order:
                 ops += [['move', k, d] for d in self.deltas]
@@ -334,13 +334,18 @@ class Population:
 
     def apply(self, w, op):
         w.known_now = None
+        if op[0] == 'complete':
+            w.model.complete()
+            return
         if op[0] == 'query':
             self.check(w)
             # the general listing and a shuffle are read as well (and the listing is vandalised by the caller)
             lst = w.env.get_agents()
             lst.reverse()
             del lst[:1]
+            st = w.model.random.getstate()
             w.env.shuffle()
+            w.model.random.setstate(st)
             return
         a = w.agents[op[1]]
         if op[0] == 'add':
@@ -384,7 +389,7 @@ class Population:
         return self.cn(w.model, [w.agents[k] for k in self.keys])
 
     def refstate(self, w):
-        return tuple(w.order)
+        return (tuple(w.order), w.model.is_running())
 
     def outcome(self, w):
         return w.last
